@@ -32,18 +32,20 @@ PP(i, yy) ==
   ELSE IF i.mode = "temp" THEN Th!PartialPressures(Inputs[i.j].mix, i.variant, i.Tperm, yy, "weight")
   ELSE <<FMul(i.pperm, yy), FMul(i.pperm, FSub(Lit("1.0"), yy))>>
 
-VARIABLES k, y, d, n, pc, J
+\* inp is a state variable (set once): as a defined expression it would be re-evaluated, thermodynamics included,
+\* at every one of its many occurrences in the actions
+VARIABLES k, inp, y, d, n, pc, J
 S == INSTANCE FluxSolver WITH Add <- FAdd, Sub <- FSub, Mul <- FMul, Div <- FDiv, Lt <- FLt, Le <- FLe,
-                              Eq <- EqX, Dec <- Lit, PermPress <- PP, inp <- InpTab[k]
-vars == <<k, y, d, n, pc, J>>
+                              Eq <- EqX, Dec <- Lit, PermPress <- PP
+vars == <<k, inp, y, d, n, pc, J>>
 
-Init == k \in 1..Len(Inputs) /\ y = Lit("0.0") /\ d = Lit("1.0") /\ n = 0 /\ pc = "start"
+Init == k \in 1..Len(Inputs) /\ inp = InpTab[k] /\ y = Lit("0.0") /\ d = Lit("1.0") /\ n = 0 /\ pc = "start"
         /\ J = <<Lit("0.0"), Lit("0.0")>>
 Next == k' = k /\ S!Next
 Spec == Init /\ [][Next]_vars /\ WF_vars(Next)
 
 Terminates == <>S!Done
-Inv_Law       == S!Law(FMul(InpTab[k].P1, InpTab[k].pf[1])) \/ ~(FIsFinite(J[1]) /\ FIsFinite(J[2]))
+Inv_Law       == S!Law(FMul(inp.P1, inp.pf[1])) \/ ~(FIsFinite(J[1]) /\ FIsFinite(J[2]))
 Inv_ExitBelow == S!ExitedBelowPrecision
 Inv_Bounded   == S!BoundedEvaluations
 NotStuck      == ~(pc = "raised" /\ Bounded /\ n >= MaxIter)
